@@ -6,7 +6,8 @@
     its verdict IS linearizability w.r.t. [SetSpec] / [MapSpec], and that the way extract_min / extract_max
     are presented to it is exactly the property's three clauses. *)
 From Coq Require Import ZArith List Bool.
-From LV Require Import Base.Lin Spec.Specs Proofs.LinProofs Proofs.SkipSeqEncoding.
+From LV Require Import Base.Lin Base.Conc Base.Events Spec.Specs Proofs.LinProofs Proofs.SkipSeqEncoding
+  Model.SkipList Proofs.SkipListProofs.
 Import ListNotations.
 Local Open Scope Z_scope.
 
@@ -45,7 +46,7 @@ Print Assumptions C15_extract_max_spec_clauses.
 (** the encoding used by checks/C15.py (extract_min -> k  becomes  erase k -> true) accepts every history
     the strict specification accepts: legal sequential histories stay legal *)
 Theorem C15_extract_encoding_is_weaker :
-  forall (l : list (set_op * res)) (s : list Z),
+  forall (l : list (set_op * Specs.res)) (s : list Z),
     @legal SetSpec s l -> @legal SetSpec s (map encode l).
 Proof. exact encode_legal. Qed.
 Print Assumptions C15_extract_encoding_is_weaker.
@@ -72,3 +73,61 @@ Definition h_encoded : history SetSpec :=
 Example C15_strict_extract_min_is_more_than_the_property :
   lincheck SetSpec h_strict = false /\ lincheck SetSpec h_encoded = true.
 Proof. vm_compute. split; reflexivity. Qed.
+
+
+(** * Part 2: the step-grain model of cds::intrusive::SkipListSet<HP> (Model/SkipList.v; tied to the real code by the
+    step correspondence of checks/C15.py: same programs, same schedules, every atomic access compared).
+
+    For EVERY schedule (every sequence of thread choices, [Conc.reach]), any number of threads, any client program of
+    insert / erase / contains / extract_min / extract_max with tower heights 1..3 and keys 0..7, any pre-filled state:
+    every link of every node at every level points to a node with a larger key.  At level 0 strictly larger: the nodes
+    linked from the head — including logically deleted ones not yet unlinked — have strictly increasing keys, so
+    "no key is ever present twice". *)
+Theorem C15_skip_level0_sorted_nodup :
+  forall (fuel : nat) (nodes : list (nat * nat)) (ths : list (list SkipList.op)) c (n : nat),
+    nodes_ok nodes -> Forall (Forall op_ok) ths ->
+    Conc.reach (SkipList.init_cfg fuel nodes ths) c ->
+    strictly_inc (map key_of (chain (Conc.shared c) 0 head n)).
+Proof. exact skip_level0_sorted_nodup. Qed.
+Print Assumptions C15_skip_level0_sorted_nodup.
+
+Theorem C15_skip_every_level_sorted :
+  forall (fuel : nat) (nodes : list (nat * nat)) (ths : list (list SkipList.op)) c (l n : nat),
+    nodes_ok nodes -> Forall (Forall op_ok) ths ->
+    Conc.reach (SkipList.init_cfg fuel nodes ths) c ->
+    weakly_inc (map key_of (chain (Conc.shared c) l head n)).
+Proof. exact skip_every_level_sorted. Qed.
+Print Assumptions C15_skip_every_level_sorted.
+
+(** the configurations executed by the correspondence runs ([run_case]) satisfy the hypotheses *)
+Theorem C15_skip_run_case_covered :
+  forall (cfg : list Z) (ths : list (list (list Z))) c (n : nat),
+    Conc.reach (SkipList.init_cfg 60 (prefill_nodes cfg) (map decode_ops ths)) c ->
+    strictly_inc (map key_of (chain (Conc.shared c) 0 head n)).
+Proof. exact run_case_level0_sorted. Qed.
+Print Assumptions C15_skip_run_case_covered.
+
+(** STATED, NOT PROVED (…_statement): upper levels are sub-lists of the level below at every instant, and every
+    history of the model is linearizable to SetSpec (LP of a successful insert: the level-0 link CAS; of a successful
+    erase / extract: the level-0 mark CAS).  What is proved of them: the order invariant above (all schedules); the
+    sequential versions (Properties_C18: C18_skip_levels_are_sublists_seq); the implementation-side oracle decides
+    every sampled history of the real code with the verified lincheck. *)
+Definition skip_levels_are_sublists_statement : Prop :=
+  forall (fuel : nat) nodes ths c (l n : nat) (q : ptr),
+    nodes_ok nodes -> Forall (Forall op_ok) ths -> Conc.reach (SkipList.init_cfg fuel nodes ths) c ->
+    In q (chain (Conc.shared c) (S l) head n) -> snd (nxt (Conc.shared c) q (S l)) = false ->
+    exists m, In q (chain (Conc.shared c) l head m).
+
+Definition skip_updates_linearizable_statement : Prop :=
+  forall (fuel : nat) nodes ths c,
+    nodes_ok nodes -> Forall (Forall op_ok) ths -> Conc.reach (SkipList.init_cfg fuel nodes ths) c ->
+    linearizable SetSpec (client_history nodes (Conc.trace c)).
+
+(** non-vacuity: a contended run of the model (3 threads on keys 0..1, round-robin schedule) in which CASes fail and a
+    node is helped out; its client history is accepted by the verified checker *)
+Example C15_skip_model_nonvacuous :
+  let r := SkipList.run_case [1; 1; 0; 0; 0] [[[1;1;2]; [13]]; [[6;0]; [1;0;0]]; [[14]; [10;1]]] [] 6000 in
+  snd r = true /\
+  existsb (fun e => match snd e with EvAcc KCas _ false => true | _ => false end) (fst r) = true /\
+  lincheck SetSpec (client_history (prefill_nodes [1; 1; 0; 0; 0]) (fst r)) = true.
+Proof. vm_compute. repeat split. Qed.
